@@ -290,10 +290,11 @@ example : transcript env0 (fun _ => toyGrammar) [.readDelimited isSpace, .readDe
     [(.bytes [97, 98], 2), (.bytes [99, 100, 101, 102, 103, 104, 105, 106, 107, 108], 13), (.char 10, 14), (.eof, 14)] := by
   decide
 
-/-- a chain of three members (one empty) read in 2-byte pieces with requests of 3 bytes; blocks of 5 bytes -/
+/-- a chain of three members (one empty) read in 2-byte pieces with requests of 3 bytes; blocks of 5 bytes
+(the second block is the last one: it is handed out as it is) -/
 example : rcReadAll (fun _ => 2) (fun _ => 3) 20 [[97, 98, 10, 99], [], [100, 10, 101]] 0 = [97, 98, 10, 99, 100, 10, 101] ∧
     (match liRun (fun _ => 2) 5 8 [[97, 98, 10, 99], [], [100, 10, 101]] 0 [] with | .ok b => b | .error _ => []) =
-      [[97, 98, 10], [99, 100, 10], [101]] := by
+      [[97, 98, 10], [99, 100, 10, 101]] := by
   decide
 
 example : KV.Tokenize.tokens isSpace true [32, 97, 98, 32, 32, 99, 10] = [[97, 98], [99]] ∧
